@@ -12,7 +12,8 @@ PROP = 'C19'
 PRELUDE = ('fn ids(s: Sequence<int>)->Sequence<int>{ s }\nfn inc(x: int)->int{ x + 1 }\nfn icmp(a: int, b: int)->int{ cmp(a, b) }\n'
            'fn rcmp(a: int, b: int)->int{ cmp(b, a) }\nfn half(a: int, b: int)->int{ cmp(a.div_floor(2), b.div_floor(2)) }\n'
            'fn par(a: int, b: int)->int{ cmp(a % 2, b % 2) }\nfn kcmp(a: (int, int), b: (int, int))->int{ cmp(a::item0, b::item0) }\n'
-           'fn ido(o: Optional<int>)->Optional<int>{ o }\nfn idk(s: Stack<int>)->Stack<int>{ s }\n')
+           'fn ido(o: Optional<int>)->Optional<int>{ o }\nfn idk(s: Stack<int>)->Stack<int>{ s }\n'
+           'struct Wd(w: int)\nfn cmp(a: Wd, b: Wd)->int{ (a::w - b::w) * 3 }\n')
 
 
 # ----------------------------------------------------------------------------- value universes (expr, python model)
@@ -89,6 +90,14 @@ def law_cases(tier):
 
     def add(sig, src, exp):
         out.append({'sig': 'C19|' + sig, 'src': src, 'exp': exp})
+    # a user type whose cmp returns differences of any magnitude: only the sign may matter to everything derived from it
+    for x, y in itertools.product((0, 1, 2, 7, -5, 1 << 64), repeat=2):
+        c = (x > y) - (x < y)
+        a, b = 'Wd(%s)' % xint(x), 'Wd(%s)' % xint(y)
+        add('user-cmp|%d|%d' % (x, y), '(%s < %s, %s <= %s, %s > %s, %s >= %s, sign(cmp(%s, %s)), lt(%s, %s), gt(%s, %s), (%s, 0) > (%s, 0), [%s] > [%s], [%s] < [%s])' % (
+            a, b, a, b, a, b, a, b, a, b, a, b, a, b, a, b, a, b, a, b), (c < 0, c <= 0, c > 0, c >= 0, c, c < 0, c > 0, c > 0, c > 0, c < 0))
+        add('user-cmp-minmax|%d|%d' % (x, y), '(max(%s, %s)::w, min(%s, %s)::w, [%s, %s].sort().map((q: Wd)->{ q::w }).to_array())' % (a, b, a, b, a, b),
+            (max(x, y), min(x, y), Seq(sorted([x, y]))))
     for t, vals in universes(tier).items():
         for (ea, ma), (eb, mb) in itertools.product(vals, repeat=2):
             k = '%s|%s|%s' % (t, ea, eb)
@@ -344,11 +353,13 @@ def fail_lists(tier):
     return ls
 
 
-def _fail_sweep(l):
+def _fail_sweep(arg):
     """for one list: the comparator call trace, then a violation at every k and an error at every distinct compared pair"""
     fails = []
-    body = '%s.map((x: int)->{ x * 1 }).to_array().sort((a: int, b: int)->{ let d = display(to_str(a) + " " + to_str(b)); cmp(a, b) })' % lit(l)
-    plain = '%s.map((x: int)->{ x * 1 }).to_array().sort(icmp)' % lit(l)
+    l, kind = arg if isinstance(arg, tuple) else (arg, 'sort')
+    call = {'sort': '.sort(%s)', 'n_largest': '.n_largest(3, %s)', 'n_smallest': '.n_smallest(4, %s)'}[kind]
+    body = ('%s.map((x: int)->{ x * 1 }).to_array()' % lit(l)) + call % '(a: int, b: int)->{ let d = display(to_str(a) + " " + to_str(b)); cmp(a, b) }'
+    plain = ('%s.map((x: int)->{ x * 1 }).to_array()' % lit(l)) + call % 'icmp'
 
     def job(expr, limits):
         steps = [{'feed': PRELUDE}, {'feed': 'let c0 = ()->{ %s };' % expr}, {'op': 'inst'}, {'op': 'stats'}, {'op': 'callv', 'name': 'c0', 'keep': True},
@@ -364,14 +375,14 @@ def _fail_sweep(l):
         v = decode(rs[4]['v'])
         return v, rs[4]['c']['out'], (rs[3]['c']['bytes'], rs[5]['c']['bytes']), rs[-1].get('final_bytes'), j, None
 
-    sig0 = 'C19|failing-comparator|n%d:%s' % (len(l), ','.join(map(str, l[:24])))
+    sig0 = 'C19|failing-comparator%s|n%d:%s' % ('' if kind == 'sort' else '-' + kind, len(l), ','.join(map(str, l[:24])))
     case = {'list': l}
     v, out, lv, fin, j, fatal = run(body, {'size': HUGE, 'calls': HUGE})
     if fatal or not isinstance(v, Seq):
         fails.append((sig0 + '|trace-run|crash', case, 'a sorted sequence', repr(v or fatal), j))
         return fails, 0
     pairs = [tuple(int(x) for x in ln.split()) for ln in out.split('\n') if ln]
-    if v.items != sorted(l):
+    if kind == 'sort' and v.items != sorted(l):
         fails.append((sig0 + '|trace-run|wrong-value', case, sorted(l), repr(v), j))
     C = len(pairs)
     evals = 1
@@ -391,7 +402,7 @@ def _fail_sweep(l):
             fails.append((sig + '|nonzero-after-drop', case, 0, fin, j))
     # (b) error value when a given pair is compared
     for (pa, pb) in sorted(set(pairs)):
-        expr = '%s.map((x: int)->{ x * 1 }).to_array().sort((a: int, b: int)->{ if(a == %d && b == %d, error("poison"), cmp(a, b)) })' % (lit(l), pa, pb)
+        expr = ('%s.map((x: int)->{ x * 1 }).to_array()' % lit(l)) + call % ('(a: int, b: int)->{ if(a == %d && b == %d, error("poison"), cmp(a, b)) }' % (pa, pb))
         v, out, lv, fin, j, fatal = run(expr, {'size': HUGE})
         evals += 1
         sig = sig0 + '|error-at-%d,%d' % (pa, pb)
@@ -421,6 +432,8 @@ def run(tier):
     fl = fail_lists(tier)
     rep.bounds['failing_comparator_lists'] = len(fl)
     tot = 0
+    heaps = [l for l in fl if 4 <= len(l) <= 12][:: (3 if tier == 'quick' else 1)]
+    fl = [(l, 'sort') for l in fl] + [(l, 'n_largest') for l in heaps] + [(l, 'n_smallest') for l in heaps]
     for l, (fails, evals) in zip(fl, pmap(_fail_sweep, fl)):
         tot += evals
         rep.evaluations += evals
